@@ -268,10 +268,36 @@ def main():
                 known_lines.append(line)
             evid["coverage"].setdefault("witness_replays", []).append({"class": kf["class"], "status": st})
 
+    # ---- search mode: something diverged and no oracle hit yet: run the same scenarios on the real code with
+    # payload destructors as scheduling points (interleavings the lock-step comparison cannot produce)
+    if diverging and not hits and okb:
+        cand = [d["scn"] for d in results if d["scn"] is not None]
+        # the diverging scenarios again under many fresh random schedules
+        srng = random.Random(seed ^ 0x5eac4)
+        k = 0
+        for d in sorted(diverging, key=lambda x: x["steps"])[:40]:
+            s0 = d["scn"]
+            if s0 is None:
+                continue
+            for _ in range(24 if tier == "quick" else 120):
+                k += 1
+                cand.append(scen.Scn("%s_srch%d" % (s0.name, k), s0.fl, s0.kind, s0.cap, s0.wk, s0.sf, s0.sy, s0.scripts,
+                                     scen.sched_rand(srng, s0.scripts, srng.choice([40, 120, 300])), s0.limit, s0.tags))
+        srch = corr.run_real_only(cand, os.path.join(workdir, "search"), {"MQX_DROPYIELD": "1"})
+        evid["coverage"]["search_runs"] = len(srch)
+        for (s, rl, endi) in srch:
+            if s is None:
+                continue
+            h = oracle.Hist(s, oracle.parse_trace(rl), endi, propcfg.cap_n(s.cap))
+            vs = []
+            for o in cfg["oracles"]:
+                vs.extend(propcfg.ORACLES[o](h))
+            if vs and not propcfg.known_class(pid, h, known, vs):
+                hits.append(({"scn": s, "steps": len(h.steps), "real_lines": rl, "search_env": "MQX_DROPYIELD=1"}, vs, None))
     if hits:
         d, vs, _ = min(hits, key=lambda x: x[0]["steps"])
         violations.append(({"stage": "oracle", "property": pid, "violation": vs[0], "all": vs[:5],
-                            "scenario": d["scn"].text(), "real_trace": d.get("real_lines", [])[:4000],
+                            "scenario": d["scn"].text(), "real_trace": d.get("real_lines", [])[:4000], "search_env": d.get("search_env", ""),
                             "replay_cmd": "./check %s --replay <this file>" % pid}, ""))
     elif diverging or not pr["ok"]:
         # something that the claim rests on no longer checks; a search for a failing input was part
@@ -339,6 +365,18 @@ def replay(pid, path):
     wd = os.path.join(ROOT, "work", "replay")
     os.makedirs(wd, exist_ok=True)
     scns = propcfg.parse_scn_text(obj["scenario"])
+    if obj.get("search_env"):
+        # found in search mode: payload destructors are scheduling points; only the real code runs
+        k, v = obj["search_env"].split("=")
+        for (s, rl, endi) in corr.run_real_only(scns, wd, {k: v}, jobs=1):
+            for x in rl:
+                if x and x[0].isdigit():
+                    print("  " + x[:160])
+            h = oracle.Hist(s, oracle.parse_trace(rl), endi, propcfg.cap_n(s.cap))
+            for o in propcfg.PROPS[pid]["oracles"]:
+                for vv in propcfg.ORACLES[o](h):
+                    print("ORACLE", vv)
+        return 0
     res = corr.run_all(scns, wd, brief=False, jobs=1)
     for d in res:
         print("scenario", d["name"], "diverge", d["diverge"])
